@@ -431,7 +431,7 @@ pub fn token(rng: &mut Rng, ctx: &Ctx, kind: usize) -> String {
             let is_dcs = intro == "\x1bP" || intro == "\u{90}";
             let mut s = String::from(intro);
             if is_dcs && rng.chance(60) {
-                s.push_str(*rng.pick(&["1;2", "?1", "$q", "1$", ":", "1:2", "+q", "0;1|", ">|", "1;2 3", "<", "1 :"]));
+                s.push_str(*rng.pick(&["1;2", "?1", "$q", "1$", ":", "1:2", "+q", "0;1|", ">|", "1;2 3", "<", "1 :", "0:1:2:3:4:5:6", "1:2:3:4:5:6:7:8;9", "1;2:3:4:5:6:7:8"]));
                 if rng.chance(70) {
                     s.push(*rng.pick(&['q', 'p', '|', '{', '@', '~']));
                 }
@@ -497,7 +497,17 @@ pub fn token(rng: &mut Rng, ctx: &Ctx, kind: usize) -> String {
                 s
             }
             6 => format!("{}{}", csi(rng), rng.pick(&["1<2m", "1;2:3<", "?1?2h", "1 2m", "1 !p", "!1p", "1$2p", ">!p", "?1!p"])),
-            7 => format!("\x1b{}{}", rng.pick(&[" ", "#", "(", ")", "*", "+", "%", "$", " #", "#(", "( ", "!"]), rng.pick(&["8", "0", "B", "A", "F", "G", "@", "~", "3", "\u{e9}"])),
+            7 => {
+                if rng.chance(30) {
+                    // an introducer or control arriving in the middle of an ESC / CSI sequence with intermediates
+                    let pre = *rng.pick(&["\x1b(", "\x1b#", "\x1b $", "\x1b[1$", "\x1b[!", "\x1b[1;2 ", "\x1b[:", "\x1b[1:2<", "\x1bP1$", "\x1bP:"]);
+                    let mid = *rng.pick(&["\x1b", "\x18", "\x1a", "\n", "\r", "\x08", "\u{9b}", "\u{84}", "\u{9c}", "\x00", "\x1f"]);
+                    let post = *rng.pick(&["[5C", "[2;2H", "M", "c", "(0", "[31m", "a", "D", "[?6h"]);
+                    format!("{}{}{}", pre, mid, post)
+                } else {
+                    format!("\x1b{}{}", rng.pick(&[" ", "#", "(", ")", "*", "+", "%", "$", " #", "#(", "( ", "!"]), rng.pick(&["8", "0", "B", "A", "F", "G", "@", "~", "3", "\u{e9}"]))
+                }
+            }
             8 => {
                 // params with huge values / leading zeros / colon forms on non-SGR
                 let v = *rng.pick(&["00001", "99999", "1:2", "1:2:3:4:5:6:7:8", "::", ";;", "123456789012"]);
